@@ -70,6 +70,7 @@ func seqConfigs(r *vr.Run) []config {
 			{"gc-core-1bucket", one, gcCore, 3, 4, 7, true, false, false, false},
 			{"gc-core-2buckets-art", two, gcCore[:3], 3, 2, 5, true, true, false, false},
 			{"gc-macro", one, gcCore[:2], 4, 4, 8, true, false, true, false},
+			{"held-iterator", one, gcCore[:2], 4, 2, 8, true, false, false, true},
 		}
 	}
 	return []config{
